@@ -668,7 +668,7 @@ class FModel(PlainModel):
         return None
 
 
-def rule_A_FACTORY_OPEN(ctx, repo, cache, open_only=False):
+def rule_A_FACTORY_OPEN(ctx, repo, cache, open_only=False, do_open=True):
     m = repo.mod('archives')
     am = repo.mod('_archives')
     names = ['dict_archive', 'null_archive', 'dir_archive', 'file_archive', 'sqltable_archive', 'sql_archive', 'hdfdir_archive', 'hdf_archive']
@@ -715,7 +715,7 @@ def rule_A_FACTORY_OPEN(ctx, repo, cache, open_only=False):
                 if not ok:
                     ctx.fail('A-FACTORY', new.qual, 'factory: ' + why[:60], 'archives.%s.__new__ %s' % (nm, why), '%s:%d' % (m.rel, new.node.lineno), render_path(o))
             # A-OPEN: with cached=False and no seed, merely opening must not write
-            if cached is False and dict_none is True:
+            if do_open and cached is False and dict_none is True:
                 ups = [e for e in o.st.events if e.kind == 'AUPDATE']
                 priv_label = [l for l in ARCHIVE_CLASSES if l.split('[')[0] == nm]
                 for lab in priv_label:
@@ -751,7 +751,7 @@ def rule_A_FACTORY_OPEN(ctx, repo, cache, open_only=False):
                                  'archive rewrites it (lost update against a concurrent writer, crash window without any user write)' % (nm, lab, c, wh(pci, e.line)),
                                  '%s:%d' % (m.rel, ups[0].line), render_path(uo))
     # constructors: a write in __init__ must be guarded by "store does not exist yet"
-    for ci in archive_classes(repo, PERSISTENT):
+    for ci in (archive_classes(repo, PERSISTENT) if do_open else []):
         fi, outs, eng = cache.outs(ci, '__init__')
         bad = None
         for o in outs:
